@@ -439,7 +439,7 @@ struct RecHasher {
 }
 impl Hasher for RecHasher {
     fn finish(&self) -> u64 {
-        self.log.iter().fold(17u64, |a, (m, x)| a.wrapping_mul(1_000_003).wrapping_add(*m as u64 * 31 + *x as u64))
+        self.log.iter().fold(17u64, |a, (m, x)| a.wrapping_mul(1_000_003).wrapping_add((*m as u64).wrapping_mul(31).wrapping_add(*x as u64)))
     }
     fn write(&mut self, b: &[u8]) {
         self.log.push((0, b.iter().fold(b.len() as u128, |a, x| a * 257 + *x as u128)))
